@@ -71,7 +71,7 @@ class UpdateQsvs(Spec):
                 ('existing-model-keys-keep-their-position', And(n1 >= S.mn, ctx.forall(1, lambda j: Implies(And(0 <= j, j < S.mn), keys1[j] == S.mkeys[j]))))]
     def ensures(self, E, ctx, p, ret):
         S = self; h = p.heap; keys1, has1, map1, n1 = dstate(h, S.d); rhas = h.load(ret.term, '$dhas:str'); sel = S.selected(ANY)
-        return [('selected-name: present afterwards with op_qsvs[name] if new else UPD(model[name], op_qsvs[name])', Implies(sel, And(has1[ANY], map1[ANY] == S.spec_value(ANY)))),
+        return [('selected-name: op_qsvs[name] if new else UPD(model[name], op_qsvs[name])', Implies(sel, And(has1[ANY], map1[ANY] == S.spec_value(ANY)))),
                 ('other-name: membership and value unchanged', Implies(Not(sel), And(has1[ANY] == S.mhas[ANY], map1[ANY] == S.mmap[ANY]))),
                 ('returns exactly keys(op_qsvs) minus ignore', rhas[ANY] == sel),
                 ('returned-set-is-fresh', And(Not(S.h0.alloc[ret.term]), ret.term != NULL)),
